@@ -115,6 +115,62 @@ Proof.
   revert args. induction ks as [|K ks IH]; intros [|a args]; try reflexivity.
   destruct K; cbn [frag_args]; rewrite <- IH; reflexivity.
 Qed.
+Definition go_args (fl : list (N * kind)) (k : nat) (sc : list N) :=
+  fix go (ks : list kind) (args : list Resolved.expr) {struct ks} : bool :=
+     match ks, args with
+     | [], [] => true
+     | KP :: ks', a :: args' => frag_expr pv sv bound fl k sc a && go ks' args'
+     | K :: ks', a :: args' =>
+         match frag_fexpr pv sv bound fl k sc a with Some K' => kind_eqb K' K | None => false end && go ks' args'
+     | _, _ => false
+     end.
+Lemma frag_go_eq fl k sc : forall ks args, go_args fl k sc ks args = frag_args pv sv bound fl k sc ks args.
+Proof.
+  induction ks as [|K ks IH]; intros [|a args]; try reflexivity.
+  destruct K; cbn [frag_args go_args]; fold (go_args fl k sc); rewrite <- IH; reflexivity.
+Qed.
+Lemma frag_expr_call2 fl k sc callee args sp :
+  (forall f fsp, callee <> ERead f fsp) ->
+  frag_expr pv sv bound fl (S k) sc (Resolved.ECall callee args sp) =
+  match frag_fexpr pv sv bound fl k sc callee with Some (KF ks KP) => frag_args pv sv bound fl k sc ks args | _ => false end.
+Proof.
+  intros Hn.
+  transitivity (match frag_fexpr pv sv bound fl k sc callee with Some (KF ks KP) => go_args fl k sc ks args | _ => false end).
+  - destruct callee; try (exfalso; eapply Hn; reflexivity); reflexivity.
+  - destruct (frag_fexpr pv sv bound fl k sc callee) as [[|ks0 [|? ?]]|]; try reflexivity. apply frag_go_eq.
+Qed.
+Lemma frag_fexpr_call fl k sc f fsp args sp :
+  frag_fexpr pv sv bound fl (S k) sc (Resolved.ECall (ERead f fsp) args sp) =
+  if f =? pv then None
+  else match fun_kind fl f with
+       | Some (KF ks (KF a r)) => if frag_args pv sv bound fl k sc ks args then Some (KF a r) else None
+       | _ => None
+       end.
+Proof.
+  cbn [frag_fexpr]. destruct (f =? pv); [reflexivity|]. destruct (fun_kind fl f) as [[|ks [|ka kr]]|]; try reflexivity.
+  match goal with |- (if ?x then _ else _) = (if ?y then _ else _) => replace x with y; [reflexivity|] end.
+  revert args. induction ks as [|K ks IH]; intros [|a args]; try reflexivity.
+  destruct K; cbn [frag_args]; rewrite IH; reflexivity.
+Qed.
+Lemma frag_fexpr_call2 fl k sc callee args sp :
+  (forall f fsp, callee <> ERead f fsp) ->
+  frag_fexpr pv sv bound fl (S k) sc (Resolved.ECall callee args sp) =
+  match frag_fexpr pv sv bound fl k sc callee with
+  | Some (KF ks (KF a r)) => if frag_args pv sv bound fl k sc ks args then Some (KF a r) else None
+  | _ => None
+  end.
+Proof.
+  intros Hn.
+  transitivity (match frag_fexpr pv sv bound fl k sc callee with
+                | Some (KF ks (KF a r)) => if go_args fl k sc ks args then Some (KF a r) else None
+                | _ => None end).
+  - destruct callee; try (exfalso; eapply Hn; reflexivity); reflexivity.
+  - destruct (frag_fexpr pv sv bound fl k sc callee) as [[|ks0 [|ka kr]]|]; try reflexivity. rewrite frag_go_eq. reflexivity.
+Qed.
+(* a callee that is not a name *)
+Definition not_read (x : Resolved.expr) : Prop := forall f fsp, x <> ERead f fsp.
+Lemma read_dec (x : Resolved.expr) : (exists f fsp, x = ERead f fsp) \/ not_read x.
+Proof. destruct x; try (right; intros f fsp H; discriminate H). left. eauto. Qed.
 (* a definition whose value is a function (the result of a call, a function name): the name joins the functions *)
 Definition cdef_next (fl : list (N * kind)) (k : nat) (sc : list N) (s : Resolved.stmt) (ss : list Resolved.stmt) :=
   match s with
@@ -378,23 +434,31 @@ Proof.
     intros r [<-|Hr]; [cbn [snd]; lia | specialize (Hrs r Hr); lia].
 Qed.
 
-(* a call f(args): the callee, the arguments, the call *)
+(* the callee of a call by name *)
+Lemma L_read g f fsp ctx c code v c' l :
+  expression g (ERead f fsp) ctx c = Ok ((code, v), c') -> exists b l', cshape u l code b l' c c' /\ c <= v /\ v < c'.
+Proof.
+  intros Hlow. destruct g as [|g]; [discriminate|]. cbn [expression] in Hlow. mon Hlow. fresh_all. injection H as <- <-.
+  eexists _, _. split; [|lia]. apply cshape_plain; [lia | reflexivity | reflexivity | apply used_plain].
+Qed.
+
+(* a call: the callee, the arguments, the call *)
 Lemma L_call g : L_expr pv sv bound u fl g -> L_fexpr pv sv bound u fl g ->
-  forall f fsp args sp k ctx c code v c' sc l,
-    expression (S g) (Resolved.ECall (ERead f fsp) args sp) ctx c = Ok ((code, v), c') ->
+  forall callee args sp k ctx c code v c' sc l,
+    expression (S g) (Resolved.ECall callee args sp) ctx c = Ok ((code, v), c') ->
+    (forall l0 cf codef vf cf', expression g callee ctx cf = Ok ((codef, vf), cf') ->
+       exists b l', cshape u l0 codef b l' cf cf' /\ cf <= vf /\ vf < cf') ->
     Forall (arg_ok k sc) args ->
     exists b l', cshape u l code b l' c c' /\ c <= v /\ v < c'.
 Proof.
-  intros IH IHF f fsp args sp k ctx c code v c' sc l Hlow Hargs.
-  cbn [expression] in Hlow. mon Hlow.
-  destruct g as [|g']; [discriminate|].
-  cbn [expression] in Hm. mon Hm. fresh_all. injection H as <- <-.
-  cbn [fst snd] in *.
-  destruct (L_args (S g') IH IHF args k ctx (c + 1) _ _ sc l Hm0 Hargs) as (b_a & l1 & Hsa & Hrs).
-  pose proof Hsa as (_ & Hca & _).
+  intros IH IHF callee args sp k ctx c code v c' sc l Hlow Hcal Hargs.
+  cbn [expression] in Hlow. mon Hlow. fresh_all. injection H as <- <-.
+  destruct a as [codef vf]. cbn [fst snd] in *.
+  destruct (Hcal l _ _ _ _ Hm) as (b_f & l0 & Hsf & _ & _).
+  destruct (L_args g IH IHF args k ctx _ _ _ sc l0 Hm0 Hargs) as (b_a & l1 & Hsa & Hrs).
+  pose proof Hsf as (_ & Hcf & _). pose proof Hsa as (_ & Hca & _).
   eexists _, _. split.
-  - eapply cshape_cons; [apply (cshape_plain u l (ICopy c f) c (c + 1)); [lia | reflexivity | reflexivity | apply used_plain] |].
-    eapply cshape_app; [exact Hsa|].
+  - eapply cshape_app; [exact Hsf|]. eapply cshape_app; [exact Hsa|].
     apply (cshape_plain u l1 _ c1 (c1 + 1)); [lia | reflexivity | reflexivity | reflexivity].
   - lia.
 Qed.
@@ -409,14 +473,15 @@ Proof.
     cbn [expression] in Hlow. mon Hlow. fresh_all. injection H as <- <-.
     eexists _, _. split; [|lia]. apply cshape_plain; [lia | reflexivity | reflexivity | apply used_plain].
   - (* ECall *)
-    destruct x; try discriminate Hf. cbn [frag_fexpr] in Hf.
-    destruct (var =? pv); [discriminate Hf|].
-    destruct (fun_kind fl var) as [[|ks [|ka kr]]|]; try discriminate Hf.
-    match type of Hf with (if ?b then _ else _) = _ => destruct b eqn:Hc; [|discriminate Hf] end.
-    assert (Hargs : Forall (arg_ok k sc) args).
-    { apply (frag_args_ok k sc ks). rewrite <- Hc. clear. revert args. induction ks as [|K0 ks IHk]; intros [|a args]; try reflexivity.
-      destruct K0; cbn [frag_args]; rewrite IHk; reflexivity. }
-    eapply L_call; eassumption.
+    destruct (read_dec x) as [(f & fsp & ->)|Hnr].
+    + rewrite frag_fexpr_call in Hf. destruct (f =? pv); [discriminate Hf|].
+      destruct (fun_kind fl f) as [[|ks [|ka kr]]|]; try discriminate Hf.
+      destruct (frag_args pv sv bound fl k sc ks args) eqn:Hc; [|discriminate Hf].
+      eapply L_call; [exact IH | exact IHF | exact Hlow | intros l0 cf codef vf cf' Hx; eapply L_read; exact Hx | eapply frag_args_ok; exact Hc].
+    + rewrite (frag_fexpr_call2 _ _ _ _ _ _ _ _ _ Hnr) in Hf.
+      destruct (frag_fexpr pv sv bound fl k sc x) as [[|ks [|ka kr]]|] eqn:Hfx; try discriminate Hf.
+      destruct (frag_args pv sv bound fl k sc ks args) eqn:Hc; [|discriminate Hf].
+      eapply L_call; [exact IH | exact IHF | exact Hlow | intros l0 cf codef vf cf' Hx; eapply IHF; [exact Hx | exact Hfx] | eapply frag_args_ok; exact Hc].
   - (* EFunction *)
     cbn [frag_fexpr] in Hf.
     match type of Hf with (if ?b then _ else _) = _ => destruct b eqn:Hc; [|discriminate Hf] end.
@@ -436,14 +501,18 @@ Proof.
     cbn [expression] in Hlow. mon Hlow. fresh_all. injection H as <- <-.
     eexists _, _. split; [|lia].
     apply cshape_plain; [lia | reflexivity | reflexivity | apply used_plain].
-  - (* ECall: print(a) or f(a1, ..., an) *)
-    destruct x; try discriminate Hfrag.
-    change (frag_expr pv sv bound fl (S k) sc (Resolved.ECall (ERead var sp0) args sp) = true) in Hfrag. rewrite frag_expr_call in Hfrag.
-    assert (Hargs : Forall (arg_ok k sc) args).
-    { destruct (var =? pv).
-      - destruct args as [|a [|? ?]]; try discriminate Hfrag. frag_split Hfrag. constructor; [left; exact Hfr | constructor].
-      - destruct (fun_kind fl var) as [[|ks [|? ?]]|]; try discriminate Hfrag. eapply frag_args_ok. exact Hfrag. }
-    eapply L_call; eassumption.
+  - (* ECall: print(a), f(a1, ..., an), or a computed callee *)
+    change (frag_expr pv sv bound fl (S k) sc (Resolved.ECall x args sp) = true) in Hfrag.
+    destruct (read_dec x) as [(var & sp0 & ->)|Hnr].
+    + rewrite frag_expr_call in Hfrag.
+      assert (Hargs : Forall (arg_ok k sc) args).
+      { destruct (var =? pv).
+        - destruct args as [|a [|? ?]]; try discriminate Hfrag. frag_split Hfrag. constructor; [left; exact Hfr | constructor].
+        - destruct (fun_kind fl var) as [[|ks [|? ?]]|]; try discriminate Hfrag. eapply frag_args_ok. exact Hfrag. }
+      eapply L_call; [exact IH | exact IHF | exact Hlow | intros l0 cf codef vf cf' Hx; eapply L_read; exact Hx | exact Hargs].
+    + rewrite (frag_expr_call2 _ _ _ _ _ _ _ _ _ Hnr) in Hfrag.
+      destruct (frag_fexpr pv sv bound fl k sc x) as [[|ks [|? ?]]|] eqn:Hfx; try discriminate Hfrag.
+      eapply L_call; [exact IH | exact IHF | exact Hlow | intros l0 cf codef vf cf' Hx; eapply IHF; [exact Hx | exact Hfx] | eapply frag_args_ok; exact Hfrag].
   - (* EBinOp *)
     frag_split Hfrag.
     destruct op; try discriminate Hfrag.
